@@ -17,6 +17,14 @@ from .. import graphs
 from . import c03
 
 
+class ScaledRange(graphs.RangeEdge):
+    """The range edge in other units: error = factor * (distance) - estimate."""
+    factor = 1.0
+
+    def calc_error(self):
+        return np.array([self.factor * np.linalg.norm(np.array(self.vertices[0].pose.position) - np.array(self.vertices[1].pose.position)) - self.estimate])
+
+
 def gen(tier, seed):
     rnd = random.Random(seed * 733 + 19)
     thorough = tier == 'thorough'
@@ -100,6 +108,9 @@ def check(run):
                 g._vertices[b].pose = g._vertices[a].pose             # two vertices share one pose object
                 run.notes['aliased_cases'] = run.notes.get('aliased_cases', 0) + 1
         S = max([abs(x) for v in c['verts'] for x in v['t']] + [1])
+        # the fixed flags matter to the optimizer only: the Jacobians an edge reports are the derivatives whatever the flags say
+        for j, v in enumerate(g._vertices):
+            v.fixed = [(j % 2 == 0), (j % 2 == 1), True, False][run.replayed % 4]
         # every second graph: the Jacobians of ALL its edges are requested first and compared afterwards (a result handed out earlier must not
         # be affected by later calls on other edges)
         collect_first = run.replayed % 2 == 0
@@ -157,6 +168,30 @@ def check(run):
                     run.violation(dict(key, outcome='jacobian'), 'numerical Jacobian w.r.t. vertex %d entry %s is %r, exact %r (dev %.3g > %.3g) | %s edge, scale %g' % (
                         j, ij, float(got[ij]), float(exact[ij]), dv, tol, e_case['cls'], S), dict(case=c, edge=n))
                     break
+        # Units dimension: the same range measured in other units (error scaled by 1e-5 / 1e3): the numerical Jacobian must keep its RELATIVE accuracy
+        for n, (e_case, e) in enumerate(zip(c['edges'], g._edges)):
+            if e_case['cls'] != 'range' or hist is not None:
+                continue
+            for factor in (1e-5, 1e3):
+                es = ScaledRange(list(e.vertex_ids), np.array([[2.0]]), float(e_case['tz'][0]) * factor, list(e.vertices))
+                es.factor = factor
+                try:
+                    jacs = es.calc_jacobians()
+                except Exception as ex:  # noqa
+                    run.violation(dict(part='jacobian', family='scaled-range', outcome='raised'), 'calc_jacobians raised %r' % (ex,), dict(case=c, edge=n))
+                    continue
+                off = 0
+                for j, x in enumerate(e_case['vs']):
+                    cd = B.CDIM[c['verts'][x - 1]['k']]
+                    exact = factor * np.array([[q[0] / q[1] for q in row[off:off + cd]] for row in obs['jac'][n]])
+                    off += cd
+                    dv = float(np.max(np.abs(np.asarray(jacs[j], dtype=float) - exact)))
+                    tol = factor * (1e-6 + 2e-9 * S) + 1e-16 * S * factor / 1e-6
+                    run.count(key=(repr(c), n, 'scaled', factor, j), nontrivial=True)
+                    if dv > tol:
+                        run.violation(dict(part='jacobian', family='scaled-range', factor=factor), 'range edge in other units (error x %g): numerical Jacobian w.r.t. vertex %d deviates from the exact one by %.3g (> %.3g; relative %.3g)' % (
+                            factor, j, dv, tol, dv / factor), dict(case=c, edge=n, factor=factor))
+                        break
         if run.replayed % 9 == 1:
             run.sample(dict(case=c, exact_jacobian_edge0=obs['jac'][0][:2]))
         if hist is None and not m:
